@@ -1,7 +1,10 @@
 """C18 — gamma surface (periodic, interpolating, coordinate conversions, data-model round trip) and the
 semidiscrete variational Peierls-Nabarro energies (SDVPN), arctangent profiles.
 
-Tie: correspondence only (hand-written model lean/Atomman/C18.lean).  The real scipy `Rbf` objects of a
+Tie: (1) translator: `translate()` reads SDVPN.py / GammaSurface.py with `ast` and writes the energy-term methods, disldensity,
+the default-argument block, the constructor frame / flag defaults, solve's keyword block and decompose, wrap_cushion / wrap_unit,
+a12_to_pos and pos_to_a12 as Lean definitions (lean/Atomman/Generated/PNEnergy.lean); lean/Proofs/C18_Gen.lean proves each equal
+to the hand model (`gen_…_eq_model`).  (2) correspondence (hand-written model lean/Atomman/C18.lean).  The real scipy `Rbf` objects of a
 GammaSurface are wrapped by a recorder: the arguments the implementation queries them with are compared
 with the model's wrapped coordinates / tile offsets, and the returned values are handed to the model as
 the table of the interpolant `f` (a parameter of the model).  `log`, `arctan`, `pi`, vector norms are
@@ -33,6 +36,15 @@ THEOREMS = [
     'C18.guards_scale_free', 'C18.posToA123_scale', 'C18.inPlaneOk_scale', 'C18.xvectOk_scale', 'C18.model_units_switch', 'C18.E_scale',
     'C18.solve_not_raises_of_descent', 'C18.halfwidth_continuum_partial', 'C18.halfwidth_continuum_real',
     'C18.EMany_length', 'C18.EMany_pointwise', 'C18.EMany_blocks', 'C18.EMany_single', 'C18.stress_second_row_only', 'C18.stress_symmetric_row_eq_col',
+    # checked source tie: each definition regenerated from SDVPN.py / GammaSurface.py (Generated/PNEnergy.lean) equals the hand model
+    'C18.gen_disldensity_eq_model', 'C18.gen_misfit_eq_model', 'C18.gen_psi_eq_model', 'C18.gen_chi_eq_model', 'C18.gen_elastic_eq_model',
+    'C18.gen_longrange_eq_model', 'C18.gen_stress_eq_model', 'C18.gen_surface_eq_model', 'C18.gen_nonlocal_loop_eq_model',
+    'C18.gen_nonlocal_eq_model', 'C18.gen_total_eq_model', 'C18.gen_args_eq_model', 'C18.gen_init_flags_eq_model',
+    'C18.gen_solve_keywords_eq_model', 'C18.gen_total_order_eq_model', 'C18.gen_frame_eq_model', 'C18.gen_decompose_eq_model',
+    'C18.gen_a12_to_pos_eq_model', 'C18.gen_wrap_cushion_eq_model', 'C18.gen_wrap_unit_eq_model',
+    # the clauses restated about the source's own (generated) definitions
+    'C18.source_total_is_sum_of_formulas', 'C18.source_elastic_quadratic', 'C18.source_shift_invariant', 'C18.source_call',
+    'C18.source_solve_ends', 'C18.source_wrap_periodic', 'C18.source_a12_pos_inverse',
 ]
 PARTIAL = {
     'solve never raises the total energy': 'reduced by solve_not_raises_of_descent to the descent property of the minimiser (f(result) <= '
@@ -62,6 +74,860 @@ ASSUMPTIONS = [
 ]
 TRUSTED = ['numpy / scipy (Rbf, linalg.solve, linalg.inv) in the correspondence run', 'DataModelDict json/xml (de)serialisation',
            'fractions.Fraction and math.log/atan/sqrt in the search oracle']
+
+
+# ----------------------------------------------------------------------------------------
+# translator (checked source tie): numpy array expressions of SDVPN.py / GammaSurface.py -> Lean definitions
+# ----------------------------------------------------------------------------------------
+# The energy-term methods are straight-line numpy: slices, elementwise arithmetic, np.inner / .dot / np.sum, two
+# accumulator loops.  Each is read with `ast` from /repo's CURRENT source and written as a Lean definition over lists
+# (lean/Atomman/Generated/PNEnergy.lean); Proofs/C18_Gen.lean proves every generated definition equal to the hand model
+# (`gen_…_eq_model`), so the clause theorems are theorems about what the source says now.  Anything outside the subset
+# below raises TranslationError.
+#
+# types: C constant (Fraction) | K scalar | I index (Nat) | Z integer (Int) | B bool | V 3-vector | M 3x3 | LK list of
+# scalars | LV list of 3-vectors | LVT transposed LV (only `/ LK` and `.T`) | FK scalar as a function of the bound index
+# of an `np.arange` vector | IX that arange vector itself
+GENERATED = ['PNEnergy']
+_COMP = {0: 'x', 1: 'y', 2: 'z'}
+
+
+def _TE(msg, node=None):
+    from ..translate import TranslationError
+    import ast
+    return TranslationError(msg + (': ' + ast.unparse(node)[:120] if node is not None else ''))
+
+
+class _Np:
+    def __init__(self, env, selfmap=None, funcs=None):
+        self.env = dict(env)            # python name -> (lean, type)
+        self.selfmap = selfmap or {}    # self.<attr> -> (lean, type)
+        self.funcs = funcs or {}        # callable name -> handler(self, node) -> (lean, type)
+        self.ix = None                  # (python name of the arange vector, lean bound variable, lean length)
+
+    # ---- coercions
+    def k(self, t):
+        s, ty = t
+        from ..translate import lit
+        if ty == 'C':
+            return lit(s)
+        if ty == 'K':
+            return s
+        if ty == 'I':
+            return f'((({s}) : Nat) : K)'
+        if ty == 'Z':
+            return f'((({s}) : Int) : K)'
+        raise _TE(f'not a scalar ({ty}): {s}')
+
+    def nat(self, t):
+        s, ty = t
+        if ty == 'C' and s.denominator == 1 and s >= 0:
+            return str(int(s))
+        if ty == 'I':
+            return s
+        raise _TE(f'not a non-negative index ({ty}): {s}')
+
+    def int_(self, t):
+        s, ty = t
+        if ty == 'C' and s.denominator == 1:
+            return f'({int(s)} : Int)'
+        if ty == 'I':
+            return f'(({s} : Nat) : Int)'
+        if ty == 'Z':
+            return s
+        raise _TE(f'not an integer ({ty}): {s}')
+
+    def fk(self, t):
+        """scalar-valued function of the bound index: FK as is, LK by position, scalars constant."""
+        s, ty = t
+        if ty == 'FK':
+            return s
+        if ty == 'LK':
+            return f'(({s}).getD {self.ix[1]} 0)'
+        return self.k(t)
+
+    # ---- expressions
+    def tr(self, n):
+        import ast
+        if isinstance(n, ast.Constant) and isinstance(n.value, (int, float)) and not isinstance(n.value, bool):
+            return Fraction(n.value), 'C'
+        if isinstance(n, ast.Name):
+            if self.ix is not None and n.id == self.ix[0]:
+                return self.ix[1], 'IX'
+            if n.id not in self.env:
+                raise _TE('unknown name', n)
+            return self.env[n.id]
+        if isinstance(n, ast.Attribute):
+            if ast.unparse(n).startswith('self.') and ast.unparse(n)[5:] in self.selfmap:
+                return self.selfmap[ast.unparse(n)[5:]]
+            if isinstance(n.value, ast.Name) and n.value.id == 'self':
+                if n.attr not in self.selfmap:
+                    raise _TE('unknown attribute of self', n)
+                return self.selfmap[n.attr]
+            if isinstance(n.value, ast.Name) and n.value.id == 'np' and n.attr == 'pi':
+                return 'pi', 'K'
+            if n.attr == 'T':
+                s, ty = self.tr(n.value)
+                if ty == 'LV':
+                    return s, 'LVT'
+                if ty == 'LVT':
+                    return s, 'LV'
+                if ty == 'M':
+                    return f'(M3.transpose {s})', 'M'
+            raise _TE('unsupported attribute', n)
+        if isinstance(n, ast.UnaryOp) and isinstance(n.op, ast.USub):
+            s, ty = self.tr(n.operand)
+            if ty == 'C':
+                return -s, 'C'
+            if ty in ('K', 'V'):
+                return f'(-{s})', ty
+            if ty == 'M':
+                return f'(negM {s})', 'M'
+            if ty in ('Z', 'I'):
+                return f'(-{self.int_((s, ty))})', 'Z'
+            raise _TE('unsupported negation', n)
+        if isinstance(n, ast.BinOp):
+            return self.binop(n)
+        if isinstance(n, ast.Subscript):
+            return self.subscript(n)
+        if isinstance(n, ast.Call):
+            return self.call(n)
+        raise _TE('unsupported expression', n)
+
+    def binop(self, n):
+        import ast
+        op = n.op
+        if isinstance(op, ast.Pow):
+            a = self.tr(n.left)
+            if not (isinstance(n.right, ast.Constant) and n.right.value == 2 and isinstance(n.right.value, int)):
+                raise _TE('only ** 2 is supported', n)
+            s, ty = a
+            if ty in ('K', 'Z', 'I'):
+                return f'({s} * {s})', ty
+            if ty == 'LK':
+                return f'(({s}).map (fun t => t * t))', 'LK'
+            if ty == 'LV':
+                return f'(({s}).map (fun v => npMulV v v))', 'LV'
+            raise _TE('unsupported square', n)
+        a, b = self.tr(n.left), self.tr(n.right)
+        ta, tb = a[1], b[1]
+        sym = {ast.Add: '+', ast.Sub: '-', ast.Mult: '*', ast.Div: '/'}.get(type(op))
+        if sym is None:
+            raise _TE('unsupported operator', n)
+        if ta == 'C' and tb == 'C':
+            if sym == '/' and b[0] == 0:
+                raise _TE('division by the constant 0', n)
+            return {'+': a[0] + b[0], '-': a[0] - b[0], '*': a[0] * b[0], '/': a[0] / b[0] if sym == '/' else None}[sym], 'C'
+        ints = ('I', 'Z', 'C')
+        if ta in ints and tb in ints and sym != '/' and (ta != 'C' or a[0].denominator == 1) and (tb != 'C' or b[0].denominator == 1):
+            if sym in '+*' and ta in ('I', 'C') and tb in ('I', 'C') and (ta != 'C' or a[0] >= 0) and (tb != 'C' or b[0] >= 0):
+                return f'({self.nat(a)} {sym} {self.nat(b)})', 'I'
+            return f'({self.int_(a)} {sym} {self.int_(b)})', 'Z'
+        scal = ('K', 'I', 'Z', 'C')
+        if ta in scal and tb in scal:
+            return f'({self.k(a)} {sym} {self.k(b)})', 'K'
+        if 'FK' in (ta, tb) or 'IX' in (ta, tb):
+            if ta == 'IX' or tb == 'IX':
+                raise _TE('arithmetic on the index vector outside a call', n)
+            return f'({self.fk(a)} {sym} {self.fk(b)})', 'FK'
+        if ta == 'LK' and tb == 'LK':
+            return f'(List.zipWith (fun p q => p {sym} q) {a[0]} {b[0]})', 'LK'
+        if ta == 'LK' and tb in scal:
+            return f'(({a[0]}).map (fun t => t {sym} {self.k(b)}))', 'LK'
+        if ta in scal and tb == 'LK' and sym in '+*-':
+            return f'(({b[0]}).map (fun t => {self.k(a)} {sym} t))', 'LK'
+        if ta == 'LV' and tb == 'LV' and sym in '+-*':
+            f = {'+': 'fun p q => p + q', '-': 'fun p q => p - q', '*': 'npMulV'}[sym]
+            return f'(List.zipWith ({f}) {a[0]} {b[0]})', 'LV'
+        if ta == 'LV' and tb in scal and sym in '*/':
+            return f'(({a[0]}).map (fun v => v.map (fun t => t {sym} {self.k(b)})))', 'LV'
+        if ta in scal and tb == 'LV' and sym == '*':
+            return f'(({b[0]}).map (fun v => V3.smul {self.k(a)} v))', 'LV'
+        if ta == 'LVT' and tb == 'LK' and sym == '/':
+            return f'(npRowDiv {a[0]} {b[0]})', 'LVT'
+        if ta == 'V' and tb == 'V' and sym in '+-':
+            return f'({a[0]} {sym} {b[0]})', 'V'
+        if ta == 'V' and tb in scal and sym in '*/':
+            return f'(({a[0]}).map (fun t => t {sym} {self.k(b)}))', 'V'
+        if ta in scal and tb == 'V' and sym == '*':
+            return f'(V3.smul {self.k(a)} {b[0]})', 'V'
+        raise _TE(f'operands {ta} {sym} {tb} not supported', n)
+
+    def bound(self, node):
+        """slice bound -> ('lo', nat) | ('end', nat from the end) | None."""
+        import ast
+        if node is None:
+            return None
+        if isinstance(node, ast.UnaryOp) and isinstance(node.op, ast.USub):
+            return 'end', self.nat(self.tr(node.operand))
+        if isinstance(node, ast.BinOp) and isinstance(node.op, ast.Mult) and isinstance(node.left, ast.UnaryOp) \
+                and isinstance(node.left.op, ast.USub):
+            # `-2 * m` parses as `(-2) * m`
+            return 'end', self.nat(self.tr(ast.BinOp(left=node.left.operand, op=ast.Mult(), right=node.right)))
+        t = self.tr(node)
+        if t[1] == 'C' and t[0] < 0:
+            return 'end', self.nat((-t[0], 'C'))
+        return 'lo', self.nat(t)
+
+    def slice_(self, s, sl):
+        if sl.step is not None:
+            raise _TE('slice step', sl)
+        lo, hi = self.bound(sl.lower), self.bound(sl.upper)
+        if lo is not None and lo[0] != 'lo':
+            raise _TE('negative lower slice bound', sl)
+        out = s
+        if hi is not None:
+            out = f'(({out}).take ({hi[1]}))' if hi[0] == 'lo' else f'(({out}).take (({s}).length - ({hi[1]})))'
+        if lo is not None:
+            out = f'(({out}).drop ({lo[1]}))'
+        return out
+
+    def subscript(self, n):
+        import ast
+        s, ty = self.tr(n.value)
+        sl = n.slice
+        if isinstance(sl, ast.Slice):
+            if ty not in ('LK', 'LV'):
+                raise _TE('slice of a non-list', n)
+            return self.slice_(s, sl), ty
+        if isinstance(sl, ast.Tuple) and len(sl.elts) == 2:
+            r, c = sl.elts
+            full = lambda e: isinstance(e, ast.Slice) and e.lower is None and e.upper is None and e.step is None  # noqa
+            if ty == 'LV' and isinstance(r, ast.Slice) and isinstance(c, ast.Constant) and c.value in _COMP:
+                rows = s if full(r) else self.slice_(s, r)
+                return f'(({rows}).map (fun v => v.{_COMP[c.value]}))', 'LK'
+            if ty == 'M' and isinstance(r, ast.Constant) and r.value in _COMP and full(c):
+                return f'({s}).r{r.value}', 'V'
+            raise _TE('unsupported 2-d subscript', n)
+        if isinstance(sl, ast.Constant) and isinstance(sl.value, int):
+            if ty == 'LK' and sl.value >= 0:
+                return f'(({s}).getD {sl.value} 0)', 'K'
+            if ty == 'LV' and sl.value == 0:
+                return f'(({s}).headD v3zero)', 'V'
+            raise _TE('unsupported constant subscript', n)
+        if isinstance(sl, ast.UnaryOp) and isinstance(sl.op, ast.USub) and isinstance(sl.operand, ast.Constant) and sl.operand.value == 1 \
+                and ty == 'LV':
+            return f'(({s}).getLastD v3zero)', 'V'
+        t = self.tr(sl)
+        if ty == 'LV' and t[1] == 'I':
+            return f'(({s}).getD {t[0]} v3zero)', 'V'
+        raise _TE('unsupported subscript', n)
+
+    def call(self, n):
+        import ast
+        f = n.func
+        name = ast.unparse(f)
+        if name in self.funcs:
+            return self.funcs[name](self, n)
+        args = n.args
+        if isinstance(f, ast.Attribute) and f.attr == 'copy' and not args and not n.keywords:
+            return self.tr(f.value)
+        if (isinstance(f, ast.Attribute) and f.attr == 'sum' and not args and name != 'np.sum') or (name == 'np.sum' and len(args) == 1):
+            s, ty = self.tr(f.value if name != 'np.sum' else args[0])
+            if n.keywords:
+                raise _TE('sum with keywords', n)
+            if ty == 'LK':
+                return f'(lsum {s})', 'K'
+            if ty == 'LV':
+                return f'(npSumV {s})', 'K'
+            if ty == 'FK':
+                return f'(sumTo {self.ix[2]} (fun {self.ix[1]} => {s}))', 'K'
+            raise _TE('sum of a non-array', n)
+        if name == 'np.inner' and len(args) == 2 and not n.keywords:
+            a, b = self.tr(args[0]), self.tr(args[1])
+            tt = (a[1], b[1])
+            if tt == ('V', 'V'):
+                return f'(V3.dot {a[0]} {b[0]})', 'K'
+            if tt == ('LV', 'V'):
+                return f'(({a[0]}).map (fun r => V3.dot r {b[0]}))', 'LK'
+            if tt == ('V', 'LV'):
+                return f'(({b[0]}).map (fun r => V3.dot {a[0]} r))', 'LK'
+            if tt == ('LV', 'M'):
+                return f'(({a[0]}).map (fun r => M3.mulVec {b[0]} r))', 'LV'
+            raise _TE(f'np.inner of {tt}', n)
+        if (name == 'np.dot' and len(args) == 2) or (isinstance(f, ast.Attribute) and f.attr == 'dot' and len(args) == 1 and name != 'np.dot'):
+            if n.keywords:
+                raise _TE('dot with keywords', n)
+            a, b = (self.tr(args[0]), self.tr(args[1])) if name == 'np.dot' else (self.tr(f.value), self.tr(args[0]))
+            tt = (a[1], b[1])
+            if tt == ('V', 'M'):
+                return f'(M3.vecMul {a[0]} {b[0]})', 'V'
+            if tt == ('M', 'V'):
+                return f'(M3.mulVec {a[0]} {b[0]})', 'V'
+            if tt == ('V', 'V'):
+                return f'(V3.dot {a[0]} {b[0]})', 'K'
+            if tt == ('LV', 'M'):
+                return f'(({a[0]}).map (fun r => M3.vecMul r {b[0]}))', 'LV'
+            if tt == ('M', 'M'):
+                return f'(M3.mul {a[0]} {b[0]})', 'M'
+            raise _TE(f'dot of {tt}', n)
+        if name == 'np.matmul' and len(args) == 2:
+            a, b = self.tr(args[0]), self.tr(args[1])
+            if (a[1], b[1]) == ('M', 'M'):
+                return f'(M3.mul {a[0]} {b[0]})', 'M'
+            raise _TE('matmul', n)
+        if name == 'np.outer' and len(args) == 2:
+            a, b = self.tr(args[0]), self.tr(args[1])
+            if a[1] == 'K' and b[1] == 'V':
+                return f'(V3.smul {a[0]} {b[0]})', 'V'
+            raise _TE('outer', n)
+        if name == 'np.cross' and len(args) == 2:
+            a, b = self.tr(args[0]), self.tr(args[1])
+            if (a[1], b[1]) == ('V', 'V'):
+                return f'(V3.cross {a[0]} {b[0]})', 'V'
+            raise _TE('cross', n)
+        if name == 'np.log' and len(args) == 1:
+            return f'(lg {self.k(self.tr(args[0]))})', 'K'
+        if name == 'np.abs' and len(args) == 1:
+            s, ty = self.tr(args[0])
+            if ty in ('Z', 'I'):
+                return f'(({self.int_((s, ty))}).natAbs)', 'I'
+            raise _TE('abs of a non-integer', n)
+        if name == 'len' and len(args) == 1:
+            s, ty = self.tr(args[0])
+            if ty in ('LK', 'LV'):
+                return f'(({s}).length)', 'I'
+            raise _TE('len', n)
+        if name == 'np.zeros' and len(args) == 1 and not n.keywords:
+            return f'(List.replicate {self.nat(self.tr(args[0]))} (0 : K))', 'LK'
+        if name == 'np.asarray' and len(args) == 1 and not n.keywords:
+            return self.tr(args[0])
+        if name == 'np.vstack' and len(args) == 1 and isinstance(args[0], ast.List) and len(args[0].elts) == 3:
+            raise _TE('np.vstack must be followed by .T', n)
+        raise _TE('unsupported call', n)
+
+
+def _tr_vstackT(tr, n):
+    """`np.vstack([a, b, c]).T` with three scalar lists -> list of 3-vectors."""
+    import ast
+    if isinstance(n, ast.Attribute) and n.attr == 'T' and isinstance(n.value, ast.Call) and ast.unparse(n.value.func) == 'np.vstack' \
+            and len(n.value.args) == 1 and isinstance(n.value.args[0], ast.List) and len(n.value.args[0].elts) == 3:
+        parts = [tr.tr(e) for e in n.value.args[0].elts]
+        if all(p[1] == 'LK' for p in parts):
+            return f'(npVstack3T {parts[0][0]} {parts[1][0]} {parts[2][0]})', 'LV'
+    return None
+
+
+_DEFAULT_BLOCK = ('if x is None:\n    x = self.x', 'if disregistry is None:\n    disregistry = self.disregistry')
+_ASARRAY = ('x = np.asarray(x)', 'disregistry = np.asarray(disregistry)')
+_LEANTY = {'K': 'K', 'B': 'Bool', 'V': 'V3 K', 'M': 'M3 K', 'LK': 'List K', 'LV': 'List (V3 K)', 'I': 'Nat', 'Z': 'Int'}
+_CLS = ('[Add K] [Sub K] [Mul K] [Div K] [Neg K] [Zero K] [One K] [NatCast K] [IntCast K]\n'
+        '    [LT K] [DecidableLT K] [LE K] [DecidableLE K]')
+
+
+def _method(src, name, inside=None):
+    from ..translate import get_function, strip_doc
+    fn = get_function(src, name, inside)
+    return fn, strip_doc(fn.body)
+
+
+def _split_defaults(fn, body, asarray=True):
+    """check the signature `(self, x=None, disregistry=None)` and the 'Default values are class properties' block;
+    returns the rest of the body (local function definitions skipped over are returned separately)."""
+    import ast
+    a = fn.args
+    names = [x.arg for x in a.args]
+    if names[:3] != ['self', 'x', 'disregistry'] or a.vararg or a.kwarg or a.kwonlyargs \
+            or [ast.unparse(d) for d in a.defaults[:2]] != ['None', 'None']:
+        raise _TE(f'{fn.name}: signature is not (self, x=None, disregistry=None, ...)')
+    local = [s for s in body if isinstance(s, ast.FunctionDef)]
+    rest = [s for s in body if not isinstance(s, ast.FunctionDef)]
+    want = list(_DEFAULT_BLOCK) + (list(_ASARRAY) if asarray else [])
+    got = [ast.unparse(s) for s in rest[:len(want)]]
+    if got != want:
+        raise _TE(f'{fn.name}: default-argument block changed: {got}')
+    return rest[len(want):], local
+
+
+def _body_to_lean(tr, stmts, ret_type, special=None):
+    """assignments / if-is-True-else / return -> Lean `let` chain."""
+    import ast
+    out = []
+    for k, st in enumerate(stmts):
+        if isinstance(st, ast.Assign) and len(st.targets) == 1 and isinstance(st.targets[0], ast.Name):
+            t = (special(tr, st.value) if special else None) or tr.tr(st.value)
+            nm = st.targets[0].id
+            if t[1] == 'C':
+                t = (tr.k(t), 'K')
+            if t[1] in ('LVT', 'FK', 'IX', 'PAIR'):
+                raise _TE('cannot bind a value of type ' + t[1], st)
+            if t[1] in ('CUT', 'GAMMA'):
+                tr.env[nm] = t          # an object, not a number: only its known uses are translated
+                continue
+            if t[0] != nm:
+                out.append(f'let {nm} := {t[0]}')
+            tr.env[nm] = (nm, t[1])
+        elif isinstance(st, ast.Return) and st.value is not None:
+            if k != len(stmts) - 1:
+                raise _TE('statement after return', st)
+            t = (special(tr, st.value) if special else None) or tr.tr(st.value)
+            if t[1] == 'C':
+                t = (tr.k(t), 'K')
+            if t[1] != ret_type:
+                raise _TE(f'result has type {t[1]}, expected {ret_type}', st)
+            out.append(t[0])
+            return out
+        elif isinstance(st, ast.If):
+            # `if flag is True: A  else: B` / `if flag is False: A elif flag is True: B else: raise`
+            def flag_test(test):
+                if isinstance(test, ast.Compare) and len(test.ops) == 1 and isinstance(test.ops[0], ast.Is) \
+                        and isinstance(test.comparators[0], ast.Constant) and isinstance(test.comparators[0].value, bool):
+                    s, ty = tr.tr(test.left)
+                    if ty == 'B':
+                        return s, test.comparators[0].value
+                raise _TE('unsupported branch condition', test)
+            flag, val = flag_test(st.test)
+            rest = stmts[k + 1:]
+            orelse = st.orelse
+            if len(orelse) == 1 and isinstance(orelse[0], ast.If):
+                flag2, val2 = flag_test(orelse[0].test)
+                if flag2 != flag or val2 == val or not (len(orelse[0].orelse) == 1 and isinstance(orelse[0].orelse[0], ast.Raise)):
+                    raise _TE('unsupported elif chain', st)
+                orelse = orelse[0].body
+            env0 = dict(tr.env)
+            a = _body_to_lean(tr, list(st.body) + rest, ret_type, special)
+            tr.env = dict(env0)
+            b = _body_to_lean(tr, list(orelse) + rest, ret_type, special)
+            tr.env = env0
+            ta, tb = ('\n    '.join(a), '\n    '.join(b))
+            if not val:
+                ta, tb = tb, ta
+            out.append(f'if {flag} then\n    ({ta})\n  else\n    ({tb})')
+            return out
+        elif isinstance(st, ast.Expr) and isinstance(st.value, ast.Constant):
+            continue
+        else:
+            raise _TE('unsupported statement', st)
+    raise _TE('no return')
+
+
+def _def(name, params, ret, lines, doc):
+    ps = ' '.join(f'({p} : {t})' for p, t in params)
+    body = '\n  '.join(lines)
+    return f'/-- {doc} -/\ndef {name} {ps} : {ret} :=\n  {body}\n'
+
+
+def _gen_sdvpn(src):
+    import ast
+    parts = []
+    # --- disldensity(x, disregistry, cdiff) -> (newx, ρ)
+    fn, body = _method(src, 'disldensity')
+    if [a.arg for a in fn.args.args] != ['self', 'x', 'disregistry', 'cdiff'] or [ast.unparse(d) for d in fn.args.defaults] != ['None', 'None', 'False']:
+        raise _TE('disldensity: signature changed')
+    rest, _ = _split_defaults(fn, body)
+    tr = _Np({'x': ('x', 'LK'), 'disregistry': ('disregistry', 'LV'), 'cdiff': ('cdiff', 'B')})
+    if not (isinstance(rest[-1], ast.Return) and ast.unparse(rest[-1].value) == '(newx, ρ)'):
+        raise _TE('disldensity: return changed', rest[-1])
+    rest = rest[:-1] + [ast.parse('return _pair(newx, ρ)').body[0]]
+
+    def pair(t, n):
+        a, b = t.tr(n.args[0]), t.tr(n.args[1])
+        if (a[1], b[1]) != ('LK', 'LV'):
+            raise _TE('disldensity must return (list of scalars, list of vectors)', n)
+        return f'({a[0]}, {b[0]})', 'PAIR'
+    tr.funcs['_pair'] = pair
+    parts.append(_def('gen_disldensity', [('cdiff', 'Bool'), ('x', 'List K'), ('disregistry', 'List (V3 K)')], 'List K × List (V3 K)',
+                      _body_to_lean(tr, rest, 'PAIR'), 'SDVPN.disldensity: `(newx, ρ)`'))
+
+    def dens(t, n):
+        kw = {k.arg: k.value for k in n.keywords}
+        if n.args or sorted(kw) != ['cdiff', 'disregistry', 'x']:
+            raise _TE('call of self.disldensity changed', n)
+        a, b, c = t.tr(kw['cdiff']), t.tr(kw['x']), t.tr(kw['disregistry'])
+        if (a[1], b[1], c[1]) != ('B', 'LK', 'LV'):
+            raise _TE('argument types of self.disldensity', n)
+        return f'(gen_disldensity {a[0]} {b[0]} {c[0]})', 'PAIR'
+
+    class T(_Np):
+        def subscript(self, n):
+            if isinstance(n.value, ast.Call) and ast.unparse(n.value.func) == 'self.disldensity' and isinstance(n.slice, ast.Constant) \
+                    and n.slice.value == 1:
+                return dens(self, n.value)[0] + '.2', 'LV'
+            return super().subscript(n)
+
+    base = {'x': ('x', 'LK'), 'disregistry': ('disregistry', 'LV')}
+    # --- misfit_energy
+    fn, body = _method(src, 'misfit_energy')
+    rest, _ = _split_defaults(fn, body)
+    tr = T(base, {'transform': ('transform', 'M'), 'gamma': ('gam', 'GAMMA')})
+    tr.env['gamma'] = ('gam', 'GAMMA')
+
+    def egsf(t, n):
+        if n.args or [k.arg for k in n.keywords] != ['pos']:
+            raise _TE('call of gamma.E_gsf changed', n)
+        s, ty = t.tr(n.keywords[0].value)
+        if ty != 'LV':
+            raise _TE('gamma.E_gsf(pos=) of a non-list', n)
+        return f'(({s}).map gam)', 'LK'
+    tr.funcs['gamma.E_gsf'] = egsf
+    rest = [s for s in rest if ast.unparse(s) != 'gamma = self.gamma']
+    parts.append(_def('gen_misfit_energy', [('gam', 'V3 K → K'), ('transform', 'M3 K'), ('x', 'List K'), ('disregistry', 'List (V3 K)')], 'K',
+                      _body_to_lean(tr, rest, 'K', special=_tr_vstackT), 'SDVPN.misfit_energy'))
+    # --- elastic_energy: ψ, χ, the double sum
+    fn, body = _method(src, 'elastic_energy')
+    rest, local = _split_defaults(fn, body)
+    loc = {f.name: f for f in local}
+    if sorted(loc) != ['χ', 'ψ']:
+        raise _TE('elastic_energy: local functions changed: ' + ', '.join(sorted(loc)))
+    for f in local:
+        if [a.arg for a in f.args.args] != ['i', 'j', 'Δx'] or f.args.defaults:
+            raise _TE(f'elastic_energy.{f.name}: signature changed')
+    from ..translate import strip_doc
+    pb = strip_doc(loc['ψ'].body)
+    if not (len(pb) == 3 and isinstance(pb[0], ast.With) and ast.unparse(pb[1]) == 'p[np.isnan(p)] = 0.0' and ast.unparse(pb[2]) == 'return p'):
+        raise _TE('elastic_energy.ψ: structure changed (with-block, NaN replacement, return p)')
+    wb = [s for s in pb[0].body if not (isinstance(s, ast.Expr) and isinstance(s.value, ast.Call))]
+    if not (len(wb) == 1 and isinstance(wb[0], ast.Assign) and ast.unparse(wb[0].targets[0]) == 'p'):
+        raise _TE('elastic_energy.ψ: formula statement changed')
+    # NaN arises as 0 * log(0): the integer factor inside np.abs of the logarithm's argument vanishes
+    logs = [c for c in ast.walk(wb[0].value) if isinstance(c, ast.Call) and ast.unparse(c.func) == 'np.log']
+    absz = [c for lg_ in logs for c in ast.walk(lg_) if isinstance(c, ast.Call) and ast.unparse(c.func) == 'np.abs']
+    if len(logs) != 1 or len(absz) != 1:
+        raise _TE('elastic_energy.ψ: expected exactly one np.log(np.abs(…) …)')
+    tp = _Np({'i': ('i', 'Z'), 'j': ('j', 'Z'), 'Δx': ('Δx', 'K')})
+    zero_when = tp.tr(absz[0].args[0])
+    if zero_when[1] != 'Z':
+        raise _TE('elastic_energy.ψ: np.abs of a non-integer')
+    pe = tp.tr(wb[0].value)
+    parts.append(_def('gen_psi', [('lg', 'K → K'), ('i j', 'Int'), ('Δx', 'K')], 'K',
+                      [f'if {zero_when[0]} = 0 then 0 else {tp.k(pe)}'],
+                      'ψ of SDVPN.elastic_energy; the NaN of `0 * log 0` is replaced by 0 (`p[np.isnan(p)] = 0.0`)'))
+
+    def psi_call(t, n):
+        if len(n.args) != 3 or n.keywords:
+            raise _TE('call of ψ changed', n)
+        a = [t.tr(x) for x in n.args]
+        return f'(gen_psi lg {t.int_(a[0])} {t.int_(a[1])} {t.k(a[2])})', 'K'
+    tc = _Np({'i': ('i', 'Z'), 'j': ('j', 'Z'), 'Δx': ('Δx', 'K')}, funcs={'ψ': psi_call})
+    parts.append(_def('gen_chi', [('lg', 'K → K'), ('i j', 'Int'), ('Δx', 'K')], 'K',
+                      _body_to_lean(tc, strip_doc(loc['χ'].body), 'K'), 'χ of SDVPN.elastic_energy'))
+    # main body: … ρ = …; j = np.arange(len(ρ), dtype=int); energy = 0.0; for i in j: energy += …; return energy
+    tr = T(base, {'cdiffelastic': ('cdiff', 'B'), 'K_tensor': ('Kij', 'M')})
+    k_j = [k for k, s in enumerate(rest) if ast.unparse(s).startswith('j = ')]
+    if len(k_j) != 1 or ast.unparse(rest[k_j[0]]) != 'j = np.arange(len(ρ), dtype=int)':
+        raise _TE('elastic_energy: index vector changed')
+    pre, post = rest[:k_j[0]], rest[k_j[0] + 1:]
+    if not (len(post) == 3 and ast.unparse(post[0]) == 'energy = 0.0' and isinstance(post[1], ast.For) and ast.unparse(post[2]) == 'return energy'):
+        raise _TE('elastic_energy: accumulator loop changed')
+    loop = post[1]
+    if not (ast.unparse(loop.target) == 'i' and ast.unparse(loop.iter) == 'j' and not loop.orelse and len(loop.body) == 1
+            and isinstance(loop.body[0], ast.AugAssign) and isinstance(loop.body[0].op, ast.Add) and ast.unparse(loop.body[0].target) == 'energy'):
+        raise _TE('elastic_energy: loop body changed')
+    lines = _body_to_lean(tr, pre + [ast.parse('return ρ').body[0]], 'LV')[:-1]
+    tr.ix = ('j', 'j', '(ρ).length')
+    tr.env['i'] = ('i', 'I')
+
+    def chi_call(t, n):
+        if len(n.args) != 3 or n.keywords:
+            raise _TE('call of χ changed', n)
+        a = [t.tr(x) for x in n.args]
+        conv = lambda u: f'(({u[0]} : Nat) : Int)' if u[1] in ('I', 'IX') else t.int_(u)  # noqa
+        ty = 'FK' if 'IX' in (a[0][1], a[1][1]) else 'K'
+        return f'(gen_chi lg {conv(a[0])} {conv(a[1])} {t.k(a[2])})', ty
+    tr.funcs['χ'] = chi_call
+    term = tr.tr(loop.body[0].value)
+    lines.append(f'sumTo (ρ).length (fun i => {tr.k(term)})')
+    parts.append(_def('gen_elastic_energy', [('lg', 'K → K'), ('pi', 'K'), ('Kij', 'M3 K'), ('cdiff', 'Bool'), ('x', 'List K'),
+                                             ('disregistry', 'List (V3 K)')], 'K', lines,
+                      'SDVPN.elastic_energy: `energy = 0.0; for i in j: energy += …` as the sum over i'))
+    # --- longrange_energy(self)
+    fn, body = _method(src, 'longrange_energy')
+    if [a.arg for a in fn.args.args] != ['self']:
+        raise _TE('longrange_energy: signature changed')
+
+    trl = _Np({}, {'K_tensor': ('Kij', 'M'), 'burgers': ('burgers', 'V'), 'cutofflongrange': ('L', 'CUT')})
+    trl.funcs['np.log'] = lambda t, n: (('logL', 'K') if ast.unparse(n) == 'np.log(L)' and t.env.get('L', ('', ''))[1] == 'CUT'
+                                        else (_ for _ in ()).throw(_TE('logarithm of something else than the cut-off', n)))
+    parts.append(_def('gen_longrange_energy', [('pi', 'K'), ('logL', 'K'), ('Kij', 'M3 K'), ('burgers', 'V3 K')], 'K',
+                      _body_to_lean(trl, body, 'K'), 'SDVPN.longrange_energy; `logL` stands for `np.log(self.cutofflongrange)`'))
+    # --- stress_energy
+    fn, body = _method(src, 'stress_energy')
+    rest, _ = _split_defaults(fn, body)
+    tr = T(base, {'tau': ('tau', 'M'), 'fullstress': ('fullstress', 'B'), 'cdiffstress': ('cdiffstress', 'B')})
+    parts.append(_def('gen_stress_energy', [('fullstress', 'Bool'), ('cdiffstress', 'Bool'), ('tau', 'M3 K'), ('x', 'List K'),
+                                            ('disregistry', 'List (V3 K)')], 'K', _body_to_lean(tr, rest, 'K'), 'SDVPN.stress_energy'))
+    # --- surface_energy
+    fn, body = _method(src, 'surface_energy')
+    rest, _ = _split_defaults(fn, body)
+    tr = T(base, {'beta': ('beta', 'M'), 'cdiffsurface': ('cdiffsurface', 'B')})
+    parts.append(_def('gen_surface_energy', [('cdiffsurface', 'Bool'), ('beta', 'M3 K'), ('x', 'List K'), ('disregistry', 'List (V3 K)')], 'K',
+                      _body_to_lean(tr, rest, 'K'), 'SDVPN.surface_energy'))
+    # --- nonlocal_energy: energy = 0.0; for num, α in enumerate(αs): m = num + 1; …; energy += …; return energy
+    fn, body = _method(src, 'nonlocal_energy')
+    rest, _ = _split_defaults(fn, body)
+    k_l = [k for k, s in enumerate(rest) if isinstance(s, ast.For)]
+    if len(k_l) != 1 or ast.unparse(rest[k_l[0] + 1:][0] if rest[k_l[0] + 1:] else rest[0]) != 'return energy' or len(rest) != k_l[0] + 2:
+        raise _TE('nonlocal_energy: loop / return changed')
+    loop = rest[k_l[0]]
+    pre = [s for s in rest[:k_l[0]]]
+    if ast.unparse(pre[-1]) != 'energy = 0.0' or ast.unparse(loop.target) != '(num, α)' or ast.unparse(loop.iter) != 'enumerate(αs)' or loop.orelse:
+        raise _TE('nonlocal_energy: accumulator loop changed')
+    pre = [s for s in pre[:-1] if ast.unparse(s) != 'αs = self.alpha']
+    if len(pre) != len(rest[:k_l[0]]) - 2:
+        raise _TE('nonlocal_energy: αs = self.alpha missing')
+    tr = T(base, {})
+    pre_lines = _body_to_lean(tr, pre + [ast.parse('return Δx').body[0]], 'K')[:-1]
+    tl = T({'δ': ('δ', 'LV'), 'Δx': ('Δx', 'K'), 'num': ('num', 'I'), 'α': ('α', 'K')}, {})
+    lb = list(loop.body)
+    if not (isinstance(lb[-1], ast.AugAssign) and isinstance(lb[-1].op, ast.Add) and ast.unparse(lb[-1].target) == 'energy'):
+        raise _TE('nonlocal_energy: loop body changed')
+    body_lines = _body_to_lean(tl, lb[:-1] + [ast.Return(value=lb[-1].value)], 'K')
+    parts.append('/-- the loop of SDVPN.nonlocal_energy over `enumerate(αs)`: `num` counts from where the list starts. -/\n'
+                 'def gen_nonlocal_loop (Δx : K) (δ : List (V3 K)) : Nat → List K → K\n  | _, [] => 0\n  | num, α :: rest =>\n    ('
+                 + '\n     '.join(body_lines) + ')\n      + gen_nonlocal_loop Δx δ (num + 1) rest\n')
+    parts.append(_def('gen_nonlocal_energy', [('αs', 'List K'), ('x', 'List K'), ('disregistry', 'List (V3 K)')], 'K',
+                      pre_lines + ['(0 : K) + gen_nonlocal_loop Δx δ 0 αs'], 'SDVPN.nonlocal_energy'))
+    # --- total_energy: the sum of the six method calls, in the order of the source
+    fn, body = _method(src, 'total_energy')
+    rest, _ = _split_defaults(fn, body, asarray=False)
+    if len(rest) != 1 or not isinstance(rest[0], ast.Return):
+        raise _TE('total_energy: body changed')
+    calls = {'self.misfit_energy': 'gen_misfit_energy gam s.T x disregistry',
+             'self.elastic_energy': 'gen_elastic_energy lg s.pi s.Kt s.cdiffelastic x disregistry',
+             'self.longrange_energy': 'gen_longrange_energy s.pi s.logL s.Kt s.burgers',
+             'self.stress_energy': 'gen_stress_energy s.fullstress s.cdiffstress tau x disregistry',
+             'self.nonlocal_energy': 'gen_nonlocal_energy s.αs x disregistry',
+             'self.surface_energy': 'gen_surface_energy s.cdiffsurface s.β x disregistry'}
+    seen = []
+
+    def tot(node):
+        if isinstance(node, ast.BinOp) and isinstance(node.op, ast.Add):
+            return f'({tot(node.left)} + {tot(node.right)})'
+        if isinstance(node, ast.Call) and ast.unparse(node.func) in calls and not node.keywords:
+            nm = ast.unparse(node.func)
+            want = [] if nm == 'self.longrange_energy' else ['x', 'disregistry']
+            if [ast.unparse(a) for a in node.args] != want:
+                raise _TE('total_energy: arguments of a term changed', node)
+            seen.append(nm)
+            return '(' + calls[nm] + ')'
+        raise _TE('total_energy: not a sum of the term methods', node)
+    expr = tot(rest[0].value)
+    if sorted(seen) != sorted(calls):
+        raise _TE('total_energy: each of the six terms must occur exactly once: ' + ', '.join(seen))
+    parts.append(_def('gen_total_energy', [('lg', 'K → K'), ('gam', 'V3 K → K'), ('s', 'Settings K'), ('tau', 'M3 K'), ('x', 'List K'),
+                                           ('disregistry', 'List (V3 K)')], 'K', [expr],
+                      'SDVPN.total_energy: the six term methods in the order of the source (`tau` is the full stress array, `s.τ1` its second row)'))
+    parts.append('/-- order of the terms in the sum of `total_energy`. -/\ndef gen_total_order : List String :=\n  ['
+                 + ', '.join('"' + s.split('.')[1] + '"' for s in seen) + ']\n')
+    # --- the methods that start with the default-argument block (each argument on its own)
+    blocks = []
+    for nm in ['disldensity', 'misfit_energy', 'elastic_energy', 'stress_energy', 'surface_energy', 'nonlocal_energy', 'total_energy']:
+        f2, b2 = _method(src, nm)
+        _split_defaults(f2, b2, asarray=(nm != 'total_energy'))
+        blocks.append(nm)
+    parts.append('/-- the "Default values are class properties" block (`if x is None: x = self.x`, `if disregistry is None: disregistry = '
+                 'self.disregistry`): read from each of the methods listed in `gen_default_block_methods`. -/\n'
+                 'def gen_args (selfx : List K) (selfd : List (V3 K)) (x : Option (List K)) (disregistry : Option (List (V3 K))) :\n'
+                 '    List K × List (V3 K) :=\n  let x := match x with | none => selfx | some v => v\n'
+                 '  let disregistry := match disregistry with | none => selfd | some v => v\n  (x, disregistry)\n')
+    parts.append('def gen_default_block_methods : List String :=\n  [' + ', '.join(f'"{b}"' for b in blocks) + ']\n')
+    # --- constructor: the [m, n, ξ] frame, defaults of the flags; solve: the keyword block, decompose
+    cls = [n for n in ast.walk(ast.parse(src)) if isinstance(n, ast.ClassDef) and n.name == 'SDVPN']
+    if len(cls) != 1:
+        raise _TE('class SDVPN not found')
+    meths = {n.name: n for n in cls[0].body if isinstance(n, ast.FunctionDef) and not n.decorator_list}
+    init = meths['__init__']
+    names = [a.arg for a in init.args.args]
+    defaults = dict(zip(names[len(names) - len(init.args.defaults):], init.args.defaults))
+    flags = []
+    for nm in ['fullstress', 'cdiffelastic', 'cdiffsurface', 'cdiffstress']:
+        d = defaults.get(nm)
+        if not (isinstance(d, ast.Constant) and isinstance(d.value, bool)):
+            raise _TE(f'__init__: default of {nm} is not a bool literal')
+        flags.append('true' if d.value else 'false')
+    parts.append('/-- defaults of `fullstress, cdiffelastic, cdiffsurface, cdiffstress` in the signature of `SDVPN.__init__`. -/\n'
+                 f'def gen_init_flags : Bool × Bool × Bool × Bool := ({", ".join(flags)})\n')
+    frame = {}
+    for st in ast.walk(init):
+        if isinstance(st, ast.Assign) and len(st.targets) == 1 and isinstance(st.targets[0], ast.Name) \
+                and st.targets[0].id in ('K_tensor', 'burgers', 'transform') and 'mnξ' in ast.unparse(st.value):
+            frame[st.targets[0].id] = st.value
+    if sorted(frame) != ['K_tensor', 'burgers', 'transform']:
+        raise _TE('__init__: the three [m, n, ξ] frame assignments were not found')
+    tf = _Np({'mnξ': ('mnξ', 'M'), 'K_tensor': ('K_tensor', 'M'), 'burgers': ('burgers', 'V'), 'transform': ('transform', 'M')})
+    for nm, ret, lty in (('K_tensor', 'M', 'M3 K'), ('burgers', 'V', 'V3 K'), ('transform', 'M', 'M3 K')):
+        t = tf.tr(frame[nm])
+        if t[1] != ret:
+            raise _TE(f'__init__: frame expression for {nm} has type {t[1]}')
+        parts.append(_def(f'gen_frame_{nm}', [('mnξ', 'M3 K'), (nm, lty)], lty, [t[0]], f'SDVPN.__init__: `{nm} = {ast.unparse(frame[nm])}`'))
+    solve = meths['solve']
+    kws = []
+    for st in strip_doc(solve.body):
+        if isinstance(st, ast.If) and isinstance(st.test, ast.Compare) and isinstance(st.test.ops[0], ast.IsNot) \
+                and ast.unparse(st.test.comparators[0]) == 'None' and isinstance(st.test.left, ast.Name):
+            nm = st.test.left.id
+            if ast.unparse(st.body[0]) != f'self.{nm} = {nm}' or len(st.body) != 1 or st.orelse:
+                raise _TE('solve: keyword block changed', st)
+            kws.append(nm)
+        else:
+            break
+    sig = [a.arg for a in solve.args.args][1:]
+    if sorted(sig) != sorted(kws) or sig[:10] != kws[:10] or any(ast.unparse(d) != 'None' for d in solve.args.defaults) or len(solve.args.defaults) != len(sig):
+        raise _TE(f'solve: signature {sig} and keyword block {kws} differ / defaults not None')
+    parts.append('/-- `solve(**kwargs)`: keywords of the signature = the "change attribute values if given" block (`if kw is not None: '
+                 'self.kw = kw`), in order. -/\ndef gen_solve_keywords : List String :=\n  [' + ', '.join(f'"{k}"' for k in kws) + ']\n')
+    loc = {n.name: n for n in solve.body if isinstance(n, ast.FunctionDef)}
+    dec = strip_doc(loc['decompose'].body)
+    td = _Np({'d': ('d', 'LV')})
+
+    def conc(t, n):
+        if len(n.args) == 1 and isinstance(n.args[0], ast.List) and not n.keywords:
+            ps = [t.tr(e) for e in n.args[0].elts]
+            if all(p[1] == 'LK' for p in ps):
+                return '(' + ' ++ '.join(p[0] for p in ps) + ')', 'LK'
+        raise _TE('np.concatenate', n)
+    td.funcs['np.concatenate'] = conc
+    if [ast.unparse(s) for s in dec[1:]] != ['first = d[0]', 'last = d[-1]', 'return (d13, first, last)'] or [a.arg for a in loc['decompose'].args.args] != ['d']:
+        raise _TE('solve.decompose: structure changed')
+    t13 = td.tr(dec[0].value)
+    parts.append(_def('gen_decompose', [('d', 'List (V3 K)')], 'List K × V3 K × V3 K',
+                      [f'({t13[0]}, {td.tr(dec[1].value)[0]}, {td.tr(dec[2].value)[0]})'], 'solve.decompose: `(d13, first, last)`'))
+    # recompose: array built by slice assignment -> statement pin (normalised AST)
+    rec = [ast.unparse(s) for s in strip_doc(loc['recompose'].body)]
+    want = ['half = int(len(d13) / 2)', 'd = np.zeros((half + 2, 3))', 'd[0] = first', 'd[-1] = last', 'd[1:-1, 0] = d13[:half]',
+            'd[1:-1, 2] = d13[half:]', 'return d']
+    if rec != want or [a.arg for a in loc['recompose'].args.args] != ['d13', 'first', 'last']:
+        raise _TE('solve.recompose: statements changed: ' + ' | '.join(rec))
+    tail = [ast.unparse(s) for s in solve.body[-4:]]
+    want_tail = ['d13, first, last = decompose(self.disregistry)',
+                 'res = minimize(min_func, d13, args=(first, last), method=self.min_method, options=self.min_options, **self.min_kwargs)',
+                 'self.disregistry = recompose(res.x, first, last)', 'self.__res = res']
+    if tail != want_tail:
+        raise _TE('solve: the minimise / recompose tail changed: ' + ' | '.join(tail))
+    mf = [ast.unparse(s) for s in strip_doc(loc['min_func'].body)]
+    if mf != ['disregistry = recompose(d13, first, last)', 'return self.total_energy(disregistry=disregistry)']:
+        raise _TE('solve.min_func changed: ' + ' | '.join(mf))
+    parts.append('/-- statement pin (normalised AST, compared literally by the translator): `solve.recompose`, `solve.min_func` and the\n'
+                 '    `decompose → minimize → recompose` tail of `solve` are the statements the hand model `recompose` / `solveResult` was written from. -/\n'
+                 f'def gen_recompose_pin : List String :=\n  [' + ', '.join('"' + s.replace('"', "'") + '"' for s in want) + ']\n')
+    return parts
+
+
+
+def _gen_gamma(gsrc):
+    """wrap_cushion / wrap_unit (pointwise: one element of the array), a12_to_pos, the linear solve of pos_to_a12."""
+    import ast
+    from ..translate import get_function, strip_doc, lit
+    parts = []
+
+    def pointwise(fname, params, doc):
+        fn = get_function(gsrc, fname)
+        if [a.arg for a in fn.args.args] != [p for p, _ in params]:
+            raise _TE(f'{fname}: signature changed')
+        tr = _Np({p: (p, t) for p, t in params})
+
+        def rounding(which):
+            def h(t, n):
+                if len(n.args) != 1 or n.keywords:
+                    raise _TE('rounding call', n)
+                return f'((({which} {t.k(t.tr(n.args[0]))}) : Int) : K)', 'K'
+            return h
+        tr.funcs['np.floor'] = rounding('fl')
+        tr.funcs['np.ceil'] = rounding('cl')
+
+        def mask(node):
+            if isinstance(node, ast.Name) and tr.env.get(node.id, ('', ''))[1] == 'B':
+                return tr.env[node.id][0]
+            if isinstance(node, ast.Compare) and len(node.ops) == 1:
+                l, r = tr.k(tr.tr(node.left)), tr.k(tr.tr(node.comparators[0]))
+                o = node.ops[0]
+                if isinstance(o, ast.Lt):
+                    return f'decide ({l} < {r})'
+                if isinstance(o, ast.Gt):
+                    return f'decide ({r} < {l})'
+                if isinstance(o, ast.LtE):
+                    return f'decide ({l} ≤ {r})'
+                if isinstance(o, ast.GtE):
+                    return f'decide ({r} ≤ {l})'
+            raise _TE(f'{fname}: unsupported mask', node)
+
+        lines = []
+        cur = [None]
+        orig_subscript = tr.subscript
+
+        def subscript(n):
+            if isinstance(n.value, ast.Name) and n.value.id == 'a' and cur[0] is not None and ast.unparse(n.slice) == cur[0]:
+                return tr.env['a']
+            return orig_subscript(n)
+        tr.subscript = subscript
+        for st in strip_doc(fn.body):
+            if isinstance(st, ast.AugAssign) and isinstance(st.op, (ast.Add, ast.Sub)):
+                sym = '+' if isinstance(st.op, ast.Add) else '-'
+                if isinstance(st.target, ast.Name) and st.target.id == 'a':
+                    lines.append(f'let a := a {sym} {tr.k(tr.tr(st.value))}')
+                elif isinstance(st.target, ast.Subscript) and isinstance(st.target.value, ast.Name) and st.target.value.id == 'a':
+                    m = mask(st.target.slice)
+                    cur[0] = ast.unparse(st.target.slice)
+                    v = tr.k(tr.tr(st.value))
+                    cur[0] = None
+                    lines.append(f'let a := if {m} then a {sym} {v} else a')
+                else:
+                    raise _TE(f'{fname}: unsupported update', st)
+            elif isinstance(st, ast.Assign) and len(st.targets) == 1 and isinstance(st.targets[0], ast.Name) and isinstance(st.value, ast.Compare):
+                nm = st.targets[0].id
+                lines.append(f'let {nm} := {mask(st.value)}')
+                tr.env[nm] = (nm, 'B')
+            else:
+                raise _TE(f'{fname}: unsupported statement', st)
+        lines.append('a')
+        return lines
+
+    parts.append(_def('gen_wrap_cushion', [('fl', 'K → Int'), ('a', 'K'), ('cushion', 'K')], 'K',
+                      pointwise('wrap_cushion', [('a', 'K'), ('cushion', 'K')], ''),
+                      'GammaSurface.wrap_cushion on ONE element of the array (the in-place updates as successive values of `a`)'))
+    parts.append(_def('gen_wrap_unit', [('fl cl', 'K → Int'), ('a', 'K')], 'K', pointwise('wrap_unit', [('a', 'K')], ''),
+                      'GammaSurface.wrap_unit on ONE element of the array'))
+    # ---- a12_to_pos / pos_to_a12: default block for the shift vectors, Cartesian vectors, the formula
+    want = ['if a1vect is None:\n    a1vect = self.a1vect', 'a1vect = np.asarray(a1vect)', 'if a2vect is None:\n    a2vect = self.a2vect',
+            'a2vect = np.asarray(a2vect)']
+    for fname in ('a12_to_pos', 'pos_to_a12'):
+        fn = get_function(gsrc, fname)
+        body = strip_doc(fn.body)
+        if [ast.unparse(s) for s in body[:4]] != want:
+            raise _TE(f'{fname}: default block of the shift vectors changed')
+        sel = {'box.vects': ('vects', 'M')}
+        if fname == 'a12_to_pos':
+            if [a.arg for a in fn.args.args] != ['self', 'a1', 'a2', 'a1vect', 'a2vect']:
+                raise _TE('a12_to_pos: signature changed')
+            tr = _Np({'a1': ('a1', 'K'), 'a2': ('a2', 'K'), 'a1vect': ('a1vect', 'V'), 'a2vect': ('a2vect', 'V')}, sel)
+            parts.append(_def('gen_a12_to_pos', [('vects', 'M3 K'), ('a1vect a2vect', 'V3 K'), ('a1 a2', 'K')], 'V3 K',
+                              _body_to_lean(tr, body[4:], 'V'), 'GammaSurface.a12_to_pos for one position (`a1vect`, `a2vect`: the given or the own crystal vectors)'))
+        else:
+            if [a.arg for a in fn.args.args] != ['self', 'pos', 'a1vect', 'a2vect']:
+                raise _TE('pos_to_a12: signature changed')
+            rest = [ast.unparse(s) for s in body[4:]]
+            k = rest.index('coeffs = np.array([a1vect, a2vect, a3vect]).T') if 'coeffs = np.array([a1vect, a2vect, a3vect]).T' in rest else -1
+            want_tail = ['coeffs = np.array([a1vect, a2vect, a3vect]).T', 'a123 = np.linalg.solve(coeffs, np.asarray(pos).T).T',
+                         'tol = 1e-06 * np.maximum(1.0, np.abs(a123[..., :2]).max(axis=-1))',
+                         'assert np.all(np.abs(a123[..., 2]) <= tol), np.abs(a123[..., 2]).max()', 'return (a123[..., 0], a123[..., 1])']
+            if k < 0 or rest[k:] != want_tail:
+                raise _TE('pos_to_a12: solve / tolerance / assertion statements changed: ' + ' | '.join(rest[-5:]))
+            tr = _Np({'pos': ('pos', 'V'), 'a1vect': ('a1vect', 'V'), 'a2vect': ('a2vect', 'V')}, sel)
+
+            def special(t, node):
+                if ast.unparse(node) == 'a3vect / np.linalg.norm(a3vect) ** 0.5':
+                    return f'(({t.env["a3vect"][0]}).map (fun t => t / rn))', 'V'
+                return None
+            lines = _body_to_lean(tr, body[4:4 + k] + [ast.parse('return a3vect').body[0]], 'V', special=special)[:-1]
+            lines += ['let coeffs := M3.transpose ⟨a1vect, a2vect, a3vect⟩', 'let a123 := M3.mulVec (M3.inv coeffs) pos',
+                      f'let tol := {lit(Fraction("1e-06"))} * maxK 1 (maxK (absK a123.x) (absK a123.y))',
+                      'if absK a123.z ≤ tol then some (a123.x, a123.y) else none']
+            parts.append(_def('gen_pos_to_a12', [('rn', 'K'), ('vects', 'M3 K'), ('a1vect a2vect', 'V3 K'), ('pos', 'V3 K')], 'Option (K × K)', lines,
+                              'GammaSurface.pos_to_a12 for one position; `rn` stands for `np.linalg.norm(a3vect) ** 0.5`, '
+                              '`np.linalg.solve` is the exact solve, `none` the AssertionError'))
+    return parts
+
+
+def translate():
+    src = cm.source('atomman/defect/SDVPN.py')
+    gsrc = cm.source('atomman/defect/GammaSurface.py')
+    parts = ['/- GENERATED by harness/props/c18.py from atomman/defect/SDVPN.py and GammaSurface.py — do not edit. -/',
+             'import Atomman.C18', '', 'namespace Atomman.C18.Gen', 'open Atomman Atomman.C18', '',
+             'variable {K : Type} ' + _CLS, '']
+    parts += _gen_sdvpn(src)
+    parts += _gen_gamma(gsrc)
+    parts.append('end Atomman.C18.Gen\n')
+    return {'PNEnergy': '\n'.join(parts)}
 
 
 def _np():
